@@ -8,7 +8,7 @@ D=$1; P=$2; T=${3:-quick}
 cd /repo || exit 9
 if [ -n "$(git status --porcelain --untracked-files=no)" ]; then echo "REPO-DIRTY"; exit 9; fi
 if ! git apply --3way "$D/patch.diff" >/tmp/try_seed.apply 2>&1; then
-  git checkout -- . ; git reset -q; echo "NOAPPLY $(basename $D)"; exit 3
+  git reset -q --hard HEAD; echo "NOAPPLY $(basename $D)"; exit 3
 fi
 git reset -q
 if ! go build ./... >/tmp/try_seed.build 2>&1; then git checkout -- .; echo "NOBUILD $(basename $D)"; exit 4; fi
